@@ -62,9 +62,70 @@ def extract(repo):
         h = _class(bb, "DDEHistory")
         put("histInitialCapacity", _class_attr(h, "_INITIAL_CAPACITY") if h else None)
         put("histGrowFactor", _class_attr(h, "_GROW_FACTOR") if h else None)
+        # ---- fixed-step solvers (C03): does _solve_heun copy the array returned by the first call before the second call?
+        bcls = _class(bb, "BaseBackend")
+        heun = _func(bcls, "_solve_heun") if bcls else None
+        put("heunCopiesRhs", _heun_copies_rhs(heun) if heun else None)
+        runf = _func(bcls, "run") if bcls else None
+        put("timeAxisKind", _time_axis_kind(runf) if runf else None)
     except Exception as e:  # pragma: no cover
         missing.append(f"base_backend.py: {e}")
     return T, missing
+
+
+def _time_axis_kind(fn):
+    """classify the statement `times = ...` of BaseBackend.run: 'linspaceOpen' = np.linspace(0.0, T, num=n, endpoint=False),
+    'arangeStep' = np.arange(n) * step; anything else: None (unknown)"""
+    for st in ast.walk(fn):
+        if isinstance(st, ast.Assign) and len(st.targets) == 1 and isinstance(st.targets[0], ast.Name) and st.targets[0].id == "times":
+            v = st.value
+            src = ast.unparse(v).replace(" ", "")
+            if src in ("np.linspace(0.0,T,num=n_time_points,endpoint=False)", "np.linspace(0,T,num=n_time_points,endpoint=False)"):
+                return "linspaceOpen"
+            if src in ("np.arange(n_time_points)*step", "step*np.arange(n_time_points)"):
+                return "arangeStep"
+            return None
+    return None
+
+
+def _is_copying(expr):
+    """expr syntactically produces a fresh array from a call result: np.array(f(..)), np.copy(f(..)), f(..).copy(), +f(..), 1*f(..), f(..) + 0 ..."""
+    if isinstance(expr, ast.Call):
+        fn = expr.func
+        if isinstance(fn, ast.Attribute) and fn.attr in ("copy",) and not expr.args:
+            return True
+        if isinstance(fn, ast.Attribute) and fn.attr in ("array", "copy", "asarray_copy") and isinstance(fn.value, ast.Name) and fn.value.id in ("np", "numpy"):
+            # np.array(x) copies by default; np.array(x, copy=False) does not
+            for kw in expr.keywords:
+                if kw.arg == "copy" and isinstance(kw.value, ast.Constant) and kw.value.value is False:
+                    return False
+            return True
+        return False
+    if isinstance(expr, ast.BinOp):      # arithmetic on an ndarray allocates a new array
+        return True
+    return False
+
+
+def _heun_copies_rhs(fn):
+    """In `_solve_heun`: the name bound to the first `func(...)` result that is later combined with a second `func(...)` call.
+    True iff that binding is syntactically a copy (see _is_copying) or the first result is never referenced after the second call."""
+    loops = [n for n in ast.walk(fn) if isinstance(n, ast.For)]
+    if not loops:
+        return None
+    body = loops[-1].body
+    first = None
+    for st in body:
+        if isinstance(st, ast.Assign) and len(st.targets) == 1 and isinstance(st.targets[0], ast.Name):
+            calls = [c for c in ast.walk(st.value) if isinstance(c, ast.Call) and isinstance(c.func, ast.Name) and c.func.id == "func"]
+            if calls and first is None:
+                first = (st.targets[0].id, st.value)
+    if first is None:
+        return None
+    name, val = first
+    direct = isinstance(val, ast.Call) and isinstance(val.func, ast.Name) and val.func.id == "func"
+    if direct:
+        return False
+    return _is_copying(val)
 
 
 def render(T, missing):
@@ -78,6 +139,9 @@ def render(T, missing):
         L.append(f"def {key} : Nat := {v}")
     nat("histInitialCapacity")
     nat("histGrowFactor")
+    L.append(f"def heunCopiesRhs : Bool := {'true' if T.get('heunCopiesRhs') is True else 'false'}")
+    L.append(f"/-- BaseBackend.run builds `times` as np.arange(n)*step (true) or as linspace(0,T,n,endpoint=False)/unknown (false) -/")
+    L.append(f"def timeAxisIsArange : Bool := {'true' if T.get('timeAxisKind') == 'arangeStep' else 'false'}")
     L += ["", "/-- entries the extractor could not find in the source (a theorem that needs one fails to build) -/",
           f"def missing : List String := {lean_list(missing)}", "", "end PyRates.Tables", ""]
     return "\n".join(L)
